@@ -17,6 +17,10 @@ CLAIMED = {
          'Static table agreement: the 256-row dispatch tables of the binary decoders (bytes read, integer type, byte order, UTF-8 validation, event, tag, error) are extracted from the resolved AST by partial evaluation and compared row by row with specification tables written from the standards. Exhaustive over initial bytes per instantiation; no input is run.',
          'Decides the per-byte dispatch rows; does not decide decoded values beyond width/signedness/order nor behaviour over all inputs. Trusted: clang 14, the plugin, the evaluator, the spec tables in /verif/spec.',
          'DESIGN.md §4 C07'),
+ 'C02': ('partial evaluation of the hand-written automaton into (state x character) cell tables, number/string DFAs and the end-of-input table; comparison with the RFC 8259 grammar table',
+         'Static table agreement: all 7 structural states x 256 characters, 10 literal states x 256, 8 number states x 256, string text/escape x 256 and the end-of-input switch are extracted from the resolved AST and compared with the RFC 8259 table in /verif/spec. Exhaustive over (state, character) cells per instantiation (char and wchar_t); no text is parsed.',
+         'Decides the cell tables (which characters are accepted/rejected/dispatched where); does not decide produced values, the UTF-8 validator arithmetic or duplicate handling.',
+         'DESIGN.md §4 C02'),
 }
 NOT_YET = 'check under construction in this session; no structural rule registered yet'
 NA = {}
